@@ -30,17 +30,30 @@ func (i *IRCServer) cmdServerSvsnick(s *Session, reply *Replyctx, msg *irc.Messa
 		return
 	}
 
+	oldNick := NickToLower(msg.Params[0])
+	newNick := NickToLower(msg.Params[1])
+	if other, ok := i.nicks[newNick]; ok && other != session {
+		i.sendServices(reply, &irc.Message{
+			Prefix:  i.ServerPrefix,
+			Command: irc.ERR_NICKNAMEINUSE,
+			Params:  []string{"*", msg.Params[1], "Nickname is already in use"},
+		})
+		return
+	}
+
 	// TODO(secure): kill this code duplication with cmdNick()
 	oldPrefix := session.ircPrefix
-	oldNick := NickToLower(msg.Params[0])
 	session.Nick = msg.Params[1]
-	i.nicks[NickToLower(session.Nick)] = session
-	delete(i.nicks, oldNick)
-	for _, c := range i.channels {
-		if modes, ok := c.nicks[oldNick]; ok {
-			c.nicks[NickToLower(session.Nick)] = modes
+	i.nicks[newNick] = session
+	// When only the spelling changes, old and new key are the same entry.
+	if oldNick != newNick {
+		delete(i.nicks, oldNick)
+		for _, c := range i.channels {
+			if modes, ok := c.nicks[oldNick]; ok {
+				c.nicks[newNick] = modes
+			}
+			delete(c.nicks, oldNick)
 		}
-		delete(c.nicks, oldNick)
 	}
 	session.updateIrcPrefix()
 	i.sendServices(reply,
